@@ -56,7 +56,8 @@ func processAccessClients(
 				return fmt.Errorf("value %q at index %d: bad ip, cidr, or clientid", s, i)
 			}
 
-			clientIDs.Add(s)
+			// ClientIDs of the requests are always lowercased.
+			clientIDs.Add(strings.ToLower(s))
 		}
 	}
 
